@@ -100,6 +100,9 @@ def gen_conn(rng, tier, mult):
         s = "".join(r.choice("FSEH" if r.chance(1, 2) else "FEEH") for _ in range(ln)) or "-"
         t = r.choice(["-", "1", "250", "1999", "60000"])
         ops = ["connect %s %s" % (t, s)]
+        if r.chance(1, 6):
+            # the connecting sockets get the lowest descriptor numbers (a daemon that has closed stdin/stdout/stderr): 0, 1, 2, ...
+            ops.insert(0, "fdbase %d" % r.choice([0, 0, 0, 1, 2]))
         k = r.below(10)
         if k < 2:
             ops.append("cancelc")
@@ -141,7 +144,7 @@ def components(ctx):
                             "non-trivial = at least one request and one kernel script; distinct by hash of the op list",
                        classify=classify, ldflags=LDFLAGS),
         vlib.Component("connect", "h_net.c", SRCS, ["netio"], gen_conn,
-                       nontrivial=lambda c: len(c[0].split()[2]) >= 2,
+                       nontrivial=lambda c: any(o.startswith('connect ') and len(o.split()[2]) >= 2 for o in c),
                        rule="ALL address-outcome strings over {fail-now, success, async-fail, hang} up to length 4 (quick) / 6 (thorough), with and "
                             "without per-address timeout, plus random lists up to 12 with cancellation before/after the first loop run; "
                             "non-trivial = at least two addresses",
